@@ -88,7 +88,7 @@ pub fn strategy() -> BoxedStrategy<C18Case> {
             6 => plain,
             4 => duplex,
             1 => ("[a-z]{5,8}", "[a-z]{5,8}").prop_map(|(first, second)| Gen::DuplexRestart { first, second }),
-            1 => Just(Gen::NoContent),
+            2 => Just(Gen::NoContent),
             1 => Just(Gen::Respawn)
         ],
     )
@@ -258,6 +258,23 @@ fn run_in(case: &C18Case, nu: &mut Nu) -> Result<CaseInfo, Fail> {
                 )));
             }
             labels.push("spawn-without-content".into());
+            // a spawn that could not be honoured leaves nothing behind: the next (valid) spawn of
+            // that name in that context is accepted and runs
+            let sp2 = nu.append("g.spawn", ctx, Some(b"\"after\""), None)?;
+            let (frames, ok) = nu.wait(Duration::from_secs(10), |fr| sourced(fr, &sp2.id).iter().any(|w| w.topic == "g.stop" || w.topic == "g.spawn.error"))?;
+            let mine = sourced(&frames, &sp2.id);
+            checks += 1;
+            let topics: Vec<&str> = mine.iter().map(|w| w.topic.as_str()).collect();
+            if !ok || topics.len() < 3 || topics[..3] != ["g.start", "g.recv", "g.stop"] {
+                return Err(gen_fail(format!(
+                    "a valid g.spawn after a refused (content-less) one must run (start, recv, stop); got {:?}",
+                    mine.iter().map(|w| (&w.topic, &w.meta)).collect::<Vec<_>>()
+                )));
+            }
+            let h = mine[1].hash.clone().ok_or_else(|| gen_fail("g.recv without content".into()))?;
+            if nu.content(&h)? != b"after" {
+                return Err(Fail::new(Class::Cas, "g.recv content differs from the produced string".to_string()));
+            }
         }
         Gen::Respawn => {
             let first = nu.append("g.spawn", ctx, Some(b"each {|x| $x}"), Some(MetaVal::O(vec![("duplex".into(), MetaVal::Bool(true))])))?;
